@@ -977,6 +977,29 @@ fn gen_c06(r: &mut Rng, seed: u64, idx: u64) -> Scenario {
             }
         }
     }
+    if !sweep && n > 1 && r.chance(1, 8) {
+        // glibc >= 2.42 on Linux >= 6.13: the guard of a thread stack is installed with
+        // madvise(MADV_GUARD_INSTALL) inside the stack's own rw- mapping. The memory map shows one
+        // ordinary mapping; the guard pages cannot be read by any remote strategy.
+        let ti = r.range(1, n as u64 - 1) as usize;
+        let (ss, _sl) = stack_of(&b, tid_of(ti));
+        let guard = ss - 0x1000;
+        if let Some(gi) = b.world.regions.iter().position(|g| g.start == guard && g.perms == "---p" && g.len == 0x1000) {
+            b.world.regions.remove(gi);
+            if let Some(st) = b.world.regions.iter_mut().find(|g| g.start == ss) {
+                st.start = guard;
+                st.len += 0x1000;
+            }
+            b.world.no_remote.push((guard, 0x1000));
+            if r.coin() {
+                // stack overflow: the stack pointer has run into the guard pages
+                b.world.threads[ti].regs[R_RSP] = guard + r.below(512) * 8;
+                tags.push("sp-in-installed-guard".into());
+            } else {
+                tags.push("installed-guard".into());
+            }
+        }
+    }
     if !sweep && r.chance(1, 10) {
         // a thread running on a stack below the executable (MAP_32BIT / fixed low mapping)
         let ti = r.below(n as u64) as usize;
@@ -1082,6 +1105,7 @@ fn gen_c07(r: &mut Rng, seed: u64) -> Scenario {
         let low: Option<u64> = if r.chance(1, 4) { Some(b.add_low(0x2000, "r-xp", r.next(), r.below(4))) } else { None };
         let (rip, pos) = match r.below(13) {
             6 | 7 if low.is_some() => (low.unwrap() + *r.pick(&[0u64, 100, 0x1000, 0x1fff]), "below-executable"),
+            6 => (VSYSCALL + *r.pick(&[0u64, 0x400, 0xfff]), "vsyscall-page"),
             11 | 12 if gapped.is_some() => (gapped.unwrap() - 1 - r.below(120), "before-reserved-gap"),
             8 => (adj_b, "adjacent-start"),
             9 => (adj_b - 1, "adjacent-end-1"),
